@@ -24,8 +24,8 @@ LsnSpec == Init /\ [][LsnNext]_vars
 RaceNext == \/ hist = <<>> /\ (Connect("c1") \/ Connect("c2"))
             \/ Len(hist) = 1 /\ (\E c \in Clients : Auth(c, "good") \/ AuthRace(c))
             \/ Len(hist) = 2 /\ (Chat("c1") \/ Register("a1") \/ AddLsn("l1") \/ Connect("c2") \/ Connect("c3"))
-            \/ Len(hist) = 3 /\ (\E c \in Clients : Connect(c) \/ AuthRace(c) \/ Chat(c))
+            \/ Len(hist) = 3 /\ (\E c \in Clients : Connect(c) \/ AuthRace(c) \/ Chat(c) \/ \E d \in Clients : AuthRaceRm(c, d))
             \/ Len(hist) = 4 /\ (\E c \in Clients : AuthRace(c) \/ Chat(c) \/ Connect(c))
-            \/ Len(hist) = 5 /\ (\E c \in Clients : AuthRace(c) \/ Auth(c, "good"))
+            \/ Len(hist) = 5 /\ (\E c \in Clients : AuthRace(c) \/ Auth(c, "good") \/ \E d \in Clients : AuthRaceRm(c, d))
 RaceSpec == Init /\ [][RaceNext]_vars
 =============================================================================
